@@ -10,6 +10,8 @@ Five exhaustive sub-enumerations over the C43 alphabet (all on the TREE's MJX):
 """
 from __future__ import annotations
 
+import os
+
 import numpy as np
 
 from .. import core, mj
@@ -33,6 +35,7 @@ META = dict(
     design_ref="DESIGN.md §3 C44")
 
 RTOL, ATOL = 1e-9, 1e-12
+RTOL_SOLVE, ATOL_SOLVE = 1e-6, 1e-7      # leaves downstream of the (Newton, tolerance 1e-14) constraint solve
 NSTATE = 14
 
 
@@ -112,15 +115,22 @@ def check_transform(J, lib, part, item):
     def g(s):
         return f(mx, H.apply_state(dx0, s))
     n = len(states)
+    full = item.get("mode", "full") == "full"
     res = {}
-    res["vmap"] = jax.vmap(g)(S)
+    if full:
+        res["vmap"] = jax.vmap(g)(S)
     res["jit_vmap"] = jax.jit(jax.vmap(g))(S)
     jg = jax.jit(g)
     per = [jg({k: v[i] for k, v in S.items()}) for i in range(n)]
-    eager_idx = list(range(min(item["neager"], n)))
+    eager_idx = list(range(min(item["neager"], n))) if full else []
     eager = {i: g({k: v[i] for k, v in S.items()}) for i in eager_idx}
     stats = part.setdefault("stats", {})
     fam = item["name"].split("#")[0]
+    constrained = int(np.asarray(dx0._impl.efc_type).size) > 0
+    # leaves downstream of the iterative constraint solver carry its stopping noise
+    SOLVER_LEAVES = {"qacc", "efc_force", "qfrc_constraint", "cacc", "cfrc_int", "cfrc_ext", "sensordata"}
+    if item["fn"] in ("step", "step2"):
+        SOLVER_LEAVES |= {"qvel", "qpos", "qacc_warmstart"}
 
     def cmp(tag, a_tree, b_tree, i):
         la, lb = leaves_with_names(J, a_tree), leaves_with_names(J, b_tree)
@@ -129,8 +139,10 @@ def check_transform(J, lib, part, item):
                            "structure differs for model %s" % item["name"], {"xml": item["xml"], "fn": item["fn"]})
             return
         for (name, a), (_, b) in zip(la, lb):
-            e = nerr(a, b)
-            k = tag + ":" + item["fn"]
+            last = name.replace("'", "").replace("]", "").replace("[", ".").split(".")[-1]
+            loose = constrained and item["fn"] in ("forward", "step", "step2") and (item["fn"] == "step2" or last in SOLVER_LEAVES)
+            e = nerr(a, b, RTOL_SOLVE, ATOL_SOLVE) if loose else nerr(a, b)
+            k = tag + ":" + item["fn"] + (":solver" if loose else "")
             stats[k] = max(stats.get(k, 0.0), e if np.isfinite(e) else 1e300)
             if e > 1:
                 part.violation("%s(%s) != per-sample eager: leaf %s @ %s" % (tag.split("/")[0], item["fn"], name, fam),
@@ -148,7 +160,8 @@ def check_transform(J, lib, part, item):
             cmp("vmap/eager", take(res["vmap"], i), eager[i], i)
             cmp("jit_vmap/eager", take(res["jit_vmap"], i), eager[i], i)
         else:
-            cmp("vmap/jit", take(res["vmap"], i), per[i], i)
+            if full:
+                cmp("vmap/jit", take(res["vmap"], i), per[i], i)
             cmp("jit_vmap/jit", take(res["jit_vmap"], i), per[i], i)
     part.add("eager_samples", len(eager))
     mt.free()
@@ -282,7 +295,7 @@ def check_state(J, lib, part, item):
                 mocap_pos=sent("mocap_pos", (mt.nmocap, 3), 8.0), mocap_quat=sent("mocap_quat", (mt.nmocap, 4), 9.0),
                 userdata=sent("userdata", (mt.nuserdata,), 10.0), plugin_state=sent("plugin_state", (mt.npluginstate,), 11.0))
     eq = np.array([(i + 1) % 2 for i in range(mt.neq)], dtype=np.uint8)
-    dx = dx.replace(**{k: jp.asarray(v) for k, v in vals.items()}, eq_active=jp.asarray(eq.astype(bool)))
+    dx_jax = dx.replace(**{k: jp.asarray(v) for k, v in vals.items()}, eq_active=jp.asarray(eq.astype(bool)))
     for k, v in vals.items():
         if k == "time":
             d.time = float(v)
@@ -293,8 +306,10 @@ def check_state(J, lib, part, item):
     full = (1 << NSTATE) - 1
     nfull = lib.mj_stateSize(mt, full)
     fam = item["name"].split("#")[0]
-    lo, hi = item["sigs"]
-    for sig in range(lo, hi):
+    lo = item["siglist"][0]
+    d2 = lib.make_data(mt)
+    dx, conv = dx_jax, jp.asarray
+    for sig in item["siglist"]:
         n_c = lib.mj_stateSize(mt, sig)
         buf = np.zeros(n_c)
         lib.mj_getState(mt, d, buf, sig)
@@ -324,13 +339,11 @@ def check_state(J, lib, part, item):
                     if b == 9:
                         vec[off:off + sz] = 1.0 - buf[off:off + sz]
                     off += sz
-        d2 = lib.make_data(mt)
         lib.mj_copyData(d2, mt, d)
         lib.mj_setState(mt, d2, vec, sig)
         after_c = np.zeros(nfull)
         lib.mj_getState(mt, d2, after_c, full)
-        d2.free()
-        dx2 = mjx.set_state(mx, dx, jp.asarray(vec), sig)
+        dx2 = mjx.set_state(mx, dx, conv(vec), sig)
         after_x = np.asarray(mjx.get_state(mx, dx2, full)).astype(float)
         if after_x.shape != after_c.shape or not np.array_equal(after_x, after_c):
             part.violation("set_state != mj_setState", "sig=%d: full state after set differs (model %s): first diff at %s"
@@ -341,10 +354,11 @@ def check_state(J, lib, part, item):
     # invalid signatures are rejected, like the C API does
     for bad in (1 << NSTATE, (1 << NSTATE) + 3):
         try:
-            mjx.get_state(mx, dx, bad)
+            mjx.get_state(mx, dx_jax, bad)
             part.violation("get_state accepts an invalid signature", "sig=%d accepted" % bad, {"sig": bad})
         except ValueError:
             pass
+    d2.free()
     d.free()
     mt.free()
 
@@ -455,8 +469,12 @@ def _chunk(chunk):
     part = core.Part()
     lib = mj.load()
     J = H.setup()
+    import time
     for item in chunk:
+        t0 = time.process_time()
         KINDS[item["task"]](J, lib, part, item)
+        part.add("cpu_s_%s%s" % (item["task"], ("_" + item["fn"] + "_" + item.get("mode", "")) if "fn" in item else ""),
+                 round(time.process_time() - t0, 2))
     return part
 
 
@@ -470,48 +488,61 @@ def state_model(opt):
     return it
 
 
+def newton(k, **kw):
+    """option k of the product but always Newton: iterative-solver noise must not be mistaken for a jit/vmap effect"""
+    o, desc = G.option_cover(k, **kw)
+    return o.replace('solver="CG"', 'solver="Newton"')
+
+
 def alphabet(thorough):
     items = []
-    o = lambda k, **kw: G.option_cover(k, **kw)
-    models = []
-    m0 = G.tree_model("smooth[-1,0:free,hinge]", (-1, 0), ("free", "hinge"), o(0)[0], tendon=True, gravcomp=True, actuators=1, sensors=1)
-    m1 = G.tree_model("constr[-1,0:ball,slide]", (-1, 0), ("ball", "slide"), o(1, )[0], limits=True, friction=True,
+    # mini models: small op count, so the eager (op-by-op) baseline is affordable in the quick tier
+    n0 = G.tree_model("mini-smooth[hinge,slide]", (-1, 0), ("hinge", "slide"), newton(0), tendon=False, actuators=1, sensors=0)
+    n1 = G.tree_model("mini-constr[hinge,slide]", (-1, 0), ("hinge", "slide"), newton(4), limits=True, friction=True,
+                      equality=["connect_site"], tendon=False, actuators=0, sensors=0)
+    n2 = G.contact_model("mini-contact[plane-sphere]", newton(6), [("plane", "sphere")], condim=3, sensors=False)
+    minis = [n0, n1, n2]
+    m0 = G.tree_model("smooth[-1,0:free,hinge]", (-1, 0), ("free", "hinge"), newton(1), tendon=True, gravcomp=True, actuators=1, sensors=1)
+    m1 = G.tree_model("constr[-1,0:ball,slide]", (-1, 0), ("ball", "slide"), newton(2), limits=True, friction=True,
                       equality=["connect", "joint"], tendon="full", actuators=1, sensors=1)
-    m2 = G.contact_model("contact[plane+body,condim3]", o(3)[0], [("plane", "sphere"), ("plane", "capsule"), ("sphere", "capsule")],
+    m2 = G.contact_model("contact[plane+body,condim3]", newton(3), [("plane", "sphere"), ("plane", "capsule"), ("sphere", "capsule")],
                          condim=3, margin=0.01)
-    m3 = G.tree_model("smooth[-1,-1:hinge,slide]", (-1, -1), ("hinge", "slide"), o(5)[0], tendon=True, actuators=2, sensors=2,
+    m3 = G.tree_model("smooth[-1,-1:hinge,slide]", (-1, -1), ("hinge", "slide"), newton(5), tendon=True, actuators=2, sensors=2,
                       spatial="plain", camera=True, mocap=True)
-    m4 = G.contact_model("contact[plane-box,condim4]", o(2)[0], [("plane", "box"), ("capsule", "capsule")], condim=4, margin=0.005,
+    m4 = G.contact_model("contact[plane-box,condim4]", newton(14), [("plane", "box"), ("capsule", "capsule")], condim=4, margin=0.005,
                          explicit_pair=True)
-    m5 = G.tree_model("constr[-1:hinge2]", (-1,), ("hinge2",), o(4)[0], limits=True, friction=True, equality=["weld", "joint"],
+    m5 = G.tree_model("constr[-1:hinge2]", (-1,), ("hinge2",), newton(16), limits=True, friction=True, equality=["weld", "joint"],
                       tendon="full", actuators=1, sensors=1)
     models = [m0, m1, m2, m3, m4, m5]
     if thorough:
-        import copy
         for ti, (par, js) in enumerate(G.QUICK_TREES):
-            models.append(G.tree_model("smooth[%s]" % ",".join(js), par, js, o(ti)[0], tendon=True, actuators=1, sensors=1))
-    # transform: every function on every model of the sub-alphabet
-    fns_quick = {0: ["kinematics", "forward", "step"], 1: ["crb_factor", "forward", "step"], 2: ["fwd_position", "forward", "step"]}
+            models.append(G.tree_model("smooth[%s]" % ",".join(js), par, js, newton(ti), tendon=True, actuators=1, sensors=1))
+    # transform.  mode "full": vmap (un-jitted), jit(vmap), jit per sample, eager per sample (neager samples);
+    #             mode "jit":  jit(vmap) vs jit per sample on the whole lattice (eager is unaffordable on these models in quick)
+    for mi, m in enumerate(minis):
+        for fn in ["kinematics", "crb_factor", "forward", "step"] + (["com_pos", "fwd_position", "step2"] if thorough else []):
+            items.append(dict(m, task="transform", fn=fn, nstate=8 if thorough else 4, neager=4 if thorough else (1 if fn in ("forward", "step") else 2),
+                              mode="full"))
     for mi, m in enumerate(models):
         if thorough:
-            fns = ["kinematics", "com_pos", "crb_factor", "fwd_position", "forward", "step"] + (["step2"] if mi < 3 else [])
+            fns = ["kinematics", "com_pos", "crb_factor", "fwd_position", "forward", "step"]
         else:
-            fns = fns_quick.get(mi, [])
+            fns = [["forward"], ["step"], ["step"], ["forward"], [], []][mi]
         for fn in fns:
-            heavy = fn in ("forward", "step", "step2", "fwd_position")
-            items.append(dict(m, task="transform", fn=fn, nstate=8 if thorough else (4 if heavy else 8),
-                              neager=(2 if thorough else 1) if heavy else 4))
+            items.append(dict(m, task="transform", fn=fn, nstate=8, neager=1 if thorough else 0, mode="full" if thorough else "jit"))
     for mi, m in enumerate(models):
-        items.append(dict(m, task="transfer", nstate=8 if thorough else 6, stepfirst=bool(mi % 2)))
+        items.append(dict(m, task="transfer", nstate=8 if thorough else 4, stepfirst=bool(mi % 2)))
         items.append(dict(m, task="makedata"))
         items.append(dict(m, task="pytree"))
     # all 2^14 signatures on the state model (+ one more model in thorough), sharded
-    sm = [state_model(o(0)[0])] + ([dict(m1, name="constr-state")] if thorough else [])
-    nshard = 16
-    step = (1 << NSTATE) // nshard
+    sm = [state_model(newton(0))] + ([dict(m1, name="constr-state")] if thorough else [])
+    # every signature costs one XLA compilation of a differently shaped concatenate (~30 ms): the quick tier enumerates
+    # every signature with <= 3 or >= 11 of the 14 components (940 of them), the thorough tier all 16384
+    sigs = [g for g in range(1 << NSTATE) if thorough or bin(g).count("1") <= 3 or bin(g).count("1") >= 11]
+    nshard = 32 if thorough else 16
     for m in sm:
-        for s in range(nshard):
-            items.append(dict(m, task="state", sigs=(s * step, (s + 1) * step)))
+        for s_ in range(nshard):
+            items.append(dict(m, task="state", siglist=sigs[s_::nshard]))
     return items
 
 
@@ -531,6 +562,10 @@ class _Merger:
 def run(ctx):
     mj.load()
     items = alphabet(ctx.thorough)
+    only = os.environ.get("VERIF_ONLY")      # debugging aid (mutation demos): restrict to items whose name/task contains a token
+    if only:
+        items = [it for it in items if any(t in (it["name"] + " " + it.get("task", "") + " " + it.get("fn", "")) for t in only.split(";"))]
+        ctx.exhaustive = False
     order = {"transform": 0, "state": 1, "transfer": 2, "makedata": 3, "pytree": 4}
     items.sort(key=lambda it: (order[it["task"]], 0 if it.get("fn") in ("step", "step2", "forward") else 1))
     mg = _Merger(ctx)
@@ -542,8 +577,8 @@ def run(ctx):
     ctx.rule = ("%d work items: transform = models x functions {kinematics, com_pos, crb+factor, fwd_position, forward, step} x lattice "
                 "states, comparing jit / vmap / jit(vmap) with eager per-sample (eager on a sub-lattice, jit-per-sample elsewhere); "
                 "transfer = models x lattice states x {get_data, get_data_into} over every field both sides define + contacts + batched; "
-                "state = ALL %d signatures x {state_size, get_state, set_state} vs the tree C API with sentinel content; "
+                "state = %s signatures x {state_size, get_state, set_state} vs the tree C API with sentinel content; "
                 "makedata / pytree = per model. non-trivial = every (model, function, sample), (model, state, mode), signature with "
-                ">=2 components." % (len(items), 1 << NSTATE))
+                ">=2 components." % (len(items), "all 16384" if ctx.thorough else "all 940 with <=3 or >=11 of the 14 components (of 16384)"))
     ctx.assumptions = ["equality up to 1e-12 + 1e-9*scale for jit/vmap vs eager (XLA may reorder sums); bit-equality for the state API",
                        "history / plugin state components have size 0 in the alphabet (not expressible without plugins/delays)"]
